@@ -67,8 +67,47 @@ def build(ctx, variants):
     return bins
 
 
+def index_sequence_probe(ctx, upto=20):
+    """the index sequence that expands a queued event's argument tuple, asked of the compiler for every arity 0..upto:
+    MakeIndexSequence<N>::Type must be IndexSequence<0, …, N-1>.  Returns (arities checked, the first arity that is wrong or
+    None, what the compiler said)"""
+    import subprocess
+    import leafcore
+    lines = ['#include <type_traits>', '#include "eventpp/eventqueue.h"', 'using namespace eventpp::internal_;']
+    for n in range(upto + 1):
+        lines.append('static_assert(std::is_same<typename MakeIndexSequence<%d>::Type, IndexSequence<%s>>::value, "arity %d");'
+                     % (n, ', '.join(str(i) for i in range(n)), n))
+    tu = os.path.join(vlib.ROOT, 'build', 'indexseq_probe_%d.cpp' % os.getpid())
+    os.makedirs(os.path.dirname(tu), exist_ok=True)
+    open(tu, 'w').write('\n'.join(lines) + '\n')
+    try:
+        p = subprocess.run(['g++', '-std=c++11', '-fsyntax-only', '-I' + leafcore.INC, tu], stdout=subprocess.PIPE, stderr=subprocess.PIPE,
+                           universal_newlines=True, timeout=300)
+    finally:
+        try:
+            os.unlink(tu)
+        except OSError:
+            pass
+    if p.returncode == 0:
+        return upto + 1, None, ''
+    import re
+    bad = sorted(set(int(m) for m in re.findall(r'static assertion failed: arity (\d+)', p.stderr)))
+    return upto + 1, (bad[0] if bad else -1), p.stderr[-1200:]
+
+
 def run(ctx):
     proof = vlib.coq_prove(ctx, FILES, leaves=['callbacklist', 'dispatch', 'queue'])
+    nprobe, wrong, said = index_sequence_probe(ctx)
+    if wrong is not None:
+        if wrong >= 0:
+            ctx.violation('# configuration: an EventQueue / HeterEventQueue whose prototype has %d parameters\n'
+                          '# internal_::MakeIndexSequence<%d>::Type is not IndexSequence<0 .. %d>: a queued event reaches its listeners with the wrong\n'
+                          '# stored arguments (std::get<I> over that sequence)\n# compiler: %s\n' % (wrong, wrong, wrong - 1, said.replace('\n', '\n# ')),
+                          'queued dispatch: the index sequence for arity %d is wrong — listeners of a queued event with %d parameters do not receive the arguments that were enqueued'
+                          % (wrong, wrong))
+        else:
+            ctx.violation('# the index-sequence probe does not compile against the headers\n# %s\n' % said.replace('\n', '\n# '),
+                          'index-sequence probe (MakeIndexSequence<N>::Type for N = 0..%d) does not compile' % (nprobe - 1), no_input=True)
     variants = dict(VARIANTS_QUICK)
     if ctx.tier == 'thorough':
         variants.update(VARIANTS_MORE)
@@ -122,6 +161,7 @@ def run(ctx):
         'traces_validated_against_impl': tot['compared'], 'disagreements': tot['disagreements'],
         'model_error_discarded': tot['model_error_discarded'], 'generator_histogram': hist,
         'build_variants': {k: list(v[:2]) + v[2] for k, v in variants.items()},
+        'index_sequence_arities_probed': nprobe,
         'header_sha': vlib.sha(os.path.join(vlib.REPO, 'include/eventpp/eventdispatcher.h')),
     })
     ctx.assumptions += ['compilers and standard libraries are not modelled: the build variants are evidence for the evaluation-order and implicit-move parameters, the theorems quantify over them']
